@@ -1,10 +1,181 @@
 /-
   C02 — The wire codec preserves message content.
-  (The round-trip theorems are being proved; this file currently carries the tie only.)
+
+  Model: `Model/Wire.lean` (decoder, shared with C01) and `Model/Pack.lean` (encoder with the
+  compression table keyed exactly as `Name.pack` keys it).  All theorems below are for ALL
+  messages — no bound on the number of questions/records, on name shapes or on RDATA sizes.
+  `msgWF m` is not an extra assumption about the input: by `unpackMsg_wf` it holds for every
+  message the decoder accepts ("every DNS message the proxy accepts").
+
+  Ladder (helper lemmas in Lemmas/Codec*.lean):
+   1. primitives: `enc16_roundtrip` …, `nameWF_iff_labels`, `nameWF_iff_decodable`
+   2. names: `decode_literal`, `decode_prefix_pointer`
+   3. table invariant: `tableOK_append`, `packName_correct`
+   4. ★ `roundtrip_nocompress`, ★ `len_exact`
+   5. ★ `roundtrip_compress`, `pack_fits`
+   6. `unpackMsg_wf`, `decode_pack_canonical`, `raw_bytes_verbatim`, `spec_model_ok`
+   7. non-vacuity examples, `pins`
 -/
+import MosVerif.Lemmas.CodecWF
 import MosVerif.Model.WireIO
 namespace MosVerif.C02
 open MosVerif.Wire
+
+/-! ### 1. primitives -/
+
+/-- `packUint16` then `unpackUint16` is the identity on 16-bit values. -/
+theorem enc16_roundtrip (v : Nat) (h : v < 65536) (pre post : Bytes) :
+    u16At (pre ++ (enc16 v ++ post)) pre.length = .ok (v, pre.length + 2) :=
+  u16At_enc _ pre post _ v h rfl rfl
+
+/-- `packUint32` then `unpackUint32` is the identity on 32-bit values. -/
+theorem enc32_roundtrip (v : Nat) (h : v < 4294967296) (pre post : Bytes) :
+    u32At (pre ++ (enc32 v ++ post)) pre.length = .ok (v, pre.length + 4) :=
+  u32At_enc _ pre post _ v h rfl rfl
+
+/-- …and the other way round: re-encoding decoded octets reproduces them. -/
+theorem enc_of_be (a b c d : UInt8) : enc16 (be16 a b) = [a, b] ∧ enc32 (be32 a b c d) = [a, b, c, d] :=
+  ⟨enc16_be16 a b, enc32_be32 a b c d⟩
+
+/-- `scanName` accepts exactly: at most 254 octets, split into labels of 1..63 octets. -/
+theorem nameWF_iff_labels (n : Name) : nameWF n = true ↔ n.length ≤ 254 ∧ Labels n := nameWF_iff n
+
+/-- The well-formed names are exactly the names the decoder can produce. -/
+theorem nameWF_iff_decodable (n : Name) :
+    nameWF n = true ↔ ∃ msg off o, unpackName msg off = .ok (n, o) := Wire.nameWF_iff_decodable n
+
+/-! ### 2. names -/
+
+/-- Decoding the literal encoding `n ++ [0]` of a well-formed name placed at any offset of any
+    buffer yields `n` and the offset behind the terminator; later appends (`post`) do not matter. -/
+theorem decode_literal (n : Name) (hn : nameWF n = true) (pre post : Bytes) :
+    unpackName (pre ++ (n ++ 0 :: post)) pre.length = .ok (n, pre.length + n.length + 1) :=
+  Wire.decode_literal n hn pre post
+
+/-- Decoding `labels-prefix ++ pointer(off)`, where a literal `s ++ [0]` sits at `off ≤ 0x3FFF`
+    of the same buffer, yields `prefix ++ s` — one hop, inside the decoder's hop limit of 10. -/
+theorem decode_prefix_pointer (p s : Name) (hp : Labels p) (hs : Labels s) (hlen : p.length + s.length ≤ 254)
+    (pre post pre2 post2 : Bytes) (off : Nat) (hoff : off ≤ 0x3FFF)
+    (hbuf : pre ++ (p ++ ptrBytes off ++ post) = pre2 ++ (s ++ 0 :: post2)) (hpre2 : pre2.length = off) :
+    unpackName (pre ++ (p ++ ptrBytes off ++ post)) pre.length = .ok (p ++ s, pre.length + p.length + 2) :=
+  Wire.decode_prefix_pointer p s hp hs hlen pre post pre2 post2 off hoff hbuf hpre2
+
+/-! ### 3. the compression table invariant -/
+
+/-- The invariant survives every later append (RDLENGTH is produced functionally, so nothing
+    that was already written ever changes). -/
+theorem tableOK_append (buf x : Bytes) (t : Table) (h : TableOK buf t) : TableOK (buf ++ x) t := h.append x
+
+/-- `packName` on a buffer whose table satisfies the invariant: succeeds, keeps the invariant
+    for the extended buffer, writes at most `len+1` octets (exactly that many without compression),
+    and decoding at the old end of the buffer yields the name — whatever is appended afterwards. -/
+theorem packName_correct (buf : Bytes) (tbl : Option Table) (n : Name) (hn : nameWF n = true)
+    (hT : TableOK' buf tbl) :
+    ∃ bs tbl', packName buf.length tbl n = .ok (bs, tbl') ∧ TableOK' (buf ++ bs) tbl' ∧
+      bs.length ≤ n.length + 1 ∧ (tbl = none → bs.length = n.length + 1) ∧
+      ∀ post, unpackName (buf ++ (bs ++ post)) buf.length = .ok (n, buf.length + bs.length) := by
+  obtain ⟨bs, tbl', h, hE⟩ := packName_enc buf buf.length rfl tbl n hn hT
+  exact ⟨bs, tbl', h, hE.table, hE.le, hE.exact, fun post => hE.reads _ post rfl⟩
+
+/-! ### 4./5. whole messages -/
+
+/-- ★ Without compression and without size limit, every well-formed message is encoded into a
+    buffer of `Msg.Len()` octets, the encoding has exactly that length, and it decodes to the same
+    message: all header fields, any number of questions and records, every typed record and raw
+    types, arbitrary label octets, empty RDATA. -/
+theorem roundtrip_nocompress (m : Msg) (hm : msgWF m = true) :
+    ∃ bs, packMsg m false 0 (msgLen m) = .ok bs ∧ bs.length = msgLen m ∧ unpackMsg bs = .ok m := by
+  obtain ⟨bs, h1, _, h3, h4, _⟩ := packMsg_roundtrip m false hm
+  exact ⟨bs, h1, h3 rfl, h4⟩
+
+/-- ★ With name compression: the encoding fits the `Msg.Len()` buffer (compression never grows
+    the output) and decodes to the same message — names octet-exact, also inside RDATA.  There is
+    no hypothesis on pointer-chain depth: table entries always denote literal names, so every
+    emitted pointer is resolved in one hop. -/
+theorem roundtrip_compress (m : Msg) (hm : msgWF m = true) :
+    ∃ bs, packMsg m true 0 (msgLen m) = .ok bs ∧ bs.length ≤ msgLen m ∧ unpackMsg bs = .ok m := by
+  obtain ⟨bs, h1, h2, _, h4, _⟩ := packMsg_roundtrip m true hm
+  exact ⟨bs, h1, h2, h4⟩
+
+/-- ★ The uncompressed encoding has exactly the advertised length `Msg.Len()`. -/
+theorem len_exact (m : Msg) (hm : msgWF m = true) (bs : Bytes)
+    (h : packMsg m false 0 (msgLen m) = .ok bs) : bs.length = msgLen m := by
+  obtain ⟨bs', h1, h2, _⟩ := roundtrip_nocompress m hm
+  rw [h] at h1; cases h1; exact h2
+
+/-- A buffer of `Msg.Len()` octets always suffices (no `ErrSmallBuffer`), compressed or not. -/
+theorem pack_fits (m : Msg) (c : Bool) (hm : msgWF m = true) :
+    ∃ bs, packMsg m c 0 (msgLen m) = .ok bs ∧ bs.length ≤ msgLen m := by
+  obtain ⟨bs, h1, h2, _⟩ := packMsg_roundtrip m c hm
+  exact ⟨bs, h1, h2⟩
+
+/-! ### 6. what the decoder accepts -/
+
+/-- Every message the decoder accepts is well formed. -/
+theorem unpackMsg_wf (b : Bytes) (m : Msg) (h : unpackMsg b = .ok m) : msgWF m = true := unpackMsg_wf' h
+
+/-- ★ The property as stated: every message the proxy accepts — including messages that arrived
+    with compression pointers in owner names or RDATA — is re-encoded, with or without
+    compression, to wire data that decodes to the same message. -/
+theorem decode_pack_canonical (b : Bytes) (m : Msg) (h : unpackMsg b = .ok m) (c : Bool) :
+    ∃ bs, packMsg m c 0 (msgLen m) = .ok bs ∧ unpackMsg bs = .ok m := by
+  obtain ⟨bs, h1, _, _, h4, _⟩ := packMsg_roundtrip m c (unpackMsg_wf b m h)
+  exact ⟨bs, h1, h4⟩
+
+/-- Records of types the proxy does not interpret are carried byte for byte: their RDATA octets
+    appear in the output verbatim, preceded by their length, with or without compression. -/
+theorem raw_bytes_verbatim (m : Msg) (c : Bool) (hm : msgWF m = true) (bs : Bytes)
+    (h : packMsg m c 0 (msgLen m) = .ok bs) (r : Resource) (d : Bytes)
+    (hr : r ∈ m.answers ∨ r ∈ m.authorities ∨ r ∈ m.additionals) (hd : r.rdata = .raw d) :
+    ∃ pre post, bs = pre ++ (enc16 d.length ++ d ++ post) := by
+  obtain ⟨bs', h1, _, _, _, h5⟩ := packMsg_roundtrip m c hm
+  rw [h] at h1; cases h1
+  exact h5 r d hr hd
+
+/-- The executable specification used as the oracle on the implementation's bytes
+    (`WireIO.packSpec`, size 0) accepts the model's own output for every well-formed message. -/
+theorem spec_model_ok (m : Msg) (c : Bool) (hm : msgWF m = true) :
+    ∃ bs, packMsg m c 0 (msgLen m) = .ok bs ∧
+      WireIO.packSpec m 0 ⟨msgLen m, bs, none, none⟩ = "ok" := by
+  obtain ⟨bs, h1, _, _, h4, _⟩ := packMsg_roundtrip m c hm
+  refine ⟨bs, h1, ?_⟩
+  simp [WireIO.packSpec, h4]
+
+/-! ### 7. non-vacuity and pins -/
+
+/-- `a.b` -/
+def nAB : Name := [1, 97, 1, 98]
+/-- `x.a.b` (shares the suffix `a.b`) -/
+def nXAB : Name := [1, 120, 1, 97, 1, 98]
+/-- `\x03a\x01b`: one label whose octets look like the name `a.b` (defect D1's collision partner) -/
+def nTricky : Name := [3, 97, 1, 98]
+
+/-- a response with two questions and records of several kinds, sharing suffixes -/
+def exMsg : Msg :=
+  { hdr := ⟨0x1234, true, 2, true, false, true, true, false, true, 3⟩
+    questions := [⟨nAB, 1, 1⟩, ⟨nTricky, 28, 1⟩]
+    answers := [⟨nAB, 1, 1, 300, .a [1, 2, 3, 4]⟩, ⟨nXAB, 5, 1, 60, .name nAB⟩,
+      ⟨nTricky, 15, 1, 60, .mx 10 nXAB⟩]
+    authorities := [⟨nAB, 6, 1, 3600, .soa nXAB nAB 1 2 3 4 5⟩]
+    additionals := [⟨nXAB, 33, 1, 5, .srv 1 2 443 nAB⟩, ⟨[], 41, 1232, 0, .raw []⟩, ⟨nAB, 99, 1, 0, .raw [7, 7]⟩] }
+
+/-- the hypotheses of the round-trip theorems are satisfiable by a non-trivial message -/
+example : msgWF exMsg = true := by decide
+
+set_option maxRecDepth 100000 in
+/-- on it compression really emits pointers: the output is strictly shorter than `Msg.Len()` -/
+example : ∃ bs, packMsg exMsg true 0 (msgLen exMsg) = .ok bs ∧ bs.length < msgLen exMsg ∧ unpackMsg bs = .ok exMsg := by
+  obtain ⟨bs, h1, _, h3⟩ := roundtrip_compress exMsg (by decide)
+  refine ⟨bs, h1, ?_, h3⟩
+  have : (match packMsg exMsg true 0 (msgLen exMsg) with | .ok b => decide (b.length < msgLen exMsg) | _ => false) = true := by
+    decide
+  rw [h1] at this
+  simpa using this
+
+/-- the two names of defect D1 (`\x03a\x01b` then `a.b`) no longer collide in the table:
+    the second is written in full, not as a pointer into the first -/
+example : packName 12 (some [(nTricky, 12)]) nAB = .ok (nAB ++ [0], some (registerSuffixes 4 [(nTricky, 12)] 12 nAB)) := by
+  decide
 
 /-- tie: compression table key expressions and the 14-bit pointer guard. -/
 theorem pins :
